@@ -20,7 +20,9 @@ def run(tier, seed):
             # decimal timesteps (0.9, 0.45, 0.3 ...): grids the library accepts although start, end and step are not
             # exactly representable
             t0_, h_, n_ = decimal_grid(g.rng, 2 if nonlin else 9)
-            grid = {"nsteps": n_, "h": h_, "t0": t0_}
+            # (no explicit time dependence on these grids: a piecewise function with a breakpoint at a grid time would be
+            # evaluated on either side of it depending on the last bit of start + k * step)
+            grid = {"nsteps": n_, "h": h_, "t0": t0_, "no_time": True}
         p = g.program(dict({"nonlinear": nonlin, "requests": False}, **grid))
         pv = g.params_values(small=True)
         obs = [{"obs": "struct"}]
